@@ -50,6 +50,18 @@ CHECKS = {
     "C15": ("5/C15", "PBT against the sorted member list",
             "Random boolean sets incl. empty and full, converted to index sets: members in lexicographic order map to 0..n-1, others to +infinity; getElement(i) returns member i or false outside 0..n-1; stored cardinalities equal the true member counts in every node.",
             "lexicographic order by level"),
+    "C16": ("5/C16", "fault-injecting stateful PBT: misuse calls spliced into valid histories, error-contract oracle + state audit",
+            "Valid histories over two domains and several forest kinds with misuse calls spliced in (cross-domain / set-relation / labeling / range mismatches, compute() with foreign result or operand edges, out-of-range values, zero divisors met at the last point of the recursion, bad variables, foreign minterms, getElement on non-index edges, exhausted iterators, edges of destroyed forests); each must raise MEDDLY::error with a documented code; afterwards held edges, structural audit, no-undercount recount and further valid operations are checked.",
+            "expected codes per misuse class from error.h and the throw sites; arithmetic shortcut cases that absorb an invalid point are a recorded known finding (C05) and excluded"),
+    "C17": ("5/C17", "stateful PBT over creation/destruction orders with detachment, identifier and survivor audits",
+            "Random orders of forest::destroy, domain::destroy, late forest creation and cleanup()/initialize() cycles with different compute-table settings, after operations that span forests; edges of destroyed forests must be inert and raise errors when used, identifiers never repeat, survivors are re-evaluated and audited with exact reference and cache recounts after every step.",
+            "ASan for any touch of freed memory; four CT styles"),
+    "C18": ("5/C18", "model-based PBT of the five memory managers against a reference allocator",
+            "Random request/recycle sequences driven directly into each manager style; granted sizes, disjointness of live chunks, sentinel contents, handle uniqueness and isValidHandle are checked after every call.",
+            "requests >= the declared minimum size, recycle with the granted size, MSB of every slot kept clear (the documented contract of memory.h)"),
+    "C19": ("5/C19", "exhaustive enumeration (thorough) / stratified sampling (quick) of the terminal codecs",
+            "Every terminal integer, the values just outside, and every non-NaN float pattern are encoded and decoded; zero/false is the unique transparent handle; out-of-range integers raise VALUE_OVERFLOW; EV+ edges keep 64-bit values and +infinity.",
+            "independent rounding model for reals (last mantissa bit cleared); two denormals whose rounding is 0 are excluded from the zero-handle sub-assertion and counted"),
     "C20": ("5/C20", "PBT: partitioned saturation vs explicit closure under the union, and vs monolithic reachability (edge identity)",
             "1-8 random events fed to SATURATION_FORWARD by events and by levels with every splitting option, compared with the explicit closure under the union of the events and with the monolithic result in the same forest.",
             "explicit closure in the harness; identity-reduced relation forest (what the operation supports); forward direction"),
